@@ -292,6 +292,7 @@ func checkC18(p *Prog, r *Report) {
 	r.Rule("R18c", "one emission per match: on every abstract path, Fprintf calls that print parts of the match occur only under len(m) != 0 (or m != nil); the Coq generator emits exactly one of the Fail/plain forms per match, the Fail form exactly under a non-empty failing group; the Go generator's emission sequence per match is brace-balanced, names Test<name> and calls <failing-prefix>test<name>", 6)
 	r.Rule("R18e", "the generated Go file compiles (structural part): the constant text the Go generator writes on a path — header, per-match formats with a sample identifier for every %s, footer — assembled for a run with one match and for a run with none is a syntactically valid Go file, imports every package it names and uses every package it imports", 4)
 	r.Rule("R18d", "the output file is opened with os.Create (truncating); no other file-opening-for-write call exists in the generator", 1)
+	r.Rule("R18f", "distinct test functions yield distinct suite methods: the name of the emitted suite method carries both captured groups (the failing_ prefix and the name) of the function it calls, so that testX and failing_testX do not both become TestX (two methods of one name: the generated file does not compile)", 1)
 	r.Assume = append(r.Assume, "matches inside raw strings or block comments are a limitation of the line-regex approach shared by both generators and are not decided", "bufio.Scanner yields lines without newline")
 	f := p.Func(testGenPkg, "main")
 	if f == nil {
@@ -673,6 +674,7 @@ func checkEmissions(p *Prog, r *Report, f *ssa.Function, br map[string]*genBranc
 		nMatch, nEmit := 0, 0
 		scanBad, nScan := "", 0
 		unguarded, formBad, argBad, goBad := "", "", "", ""
+		nameDrops := ""
 		for _, ip := range g.paths {
 			mk := ip.eventsOf(findName)[0].Key
 			m := func(i int) string { return mk + "[" + itoa(i) + "]" }
@@ -800,8 +802,11 @@ func checkEmissions(p *Prog, r *Report, f *ssa.Function, br map[string]*genBranc
 							okCallee = true
 						}
 						// one suite method per match, named after the name group
-						if strings.HasPrefix(txt, "func (suite *GoTestSuite) Test") && strings.Contains(txt, "\x03() {") && !strings.Contains(txt, "\x02") {
+						if strings.HasPrefix(txt, "func (suite *GoTestSuite) Test") && strings.Contains(txt, "\x03") && strings.Contains(txt, "() {") {
 							okName = true
+							if !strings.Contains(txt, "\x02") {
+								nameDrops = showGroups(txt)
+							}
 						}
 					}
 				}
@@ -825,6 +830,8 @@ func checkEmissions(p *Prog, r *Report, f *ssa.Function, br map[string]*genBranc
 			r.Check("R18c", "coq emission names the matched function", g.pos, argBad == "", argBad+"; the callee must be <failing group><name group>")
 		} else {
 			r.Check("R18c", "go generator emits one complete test per match", g.pos, goBad == "", goBad)
+			r.Check("R18f", "distinct test functions yield distinct suite methods", g.pos, nameDrops == "",
+				"the suite method is named "+nameDrops+" — after the name group only — while the function it calls is ⟨failing⟩test⟨name⟩: a package that declares both testX and failing_testX gets two methods TestX on GoTestSuite, and the generated Go file does not compile")
 		}
 	}
 }
